@@ -42,6 +42,11 @@ def run(ctx, db, tier):
     forward_once(ctx, db, 'C09.forward-once')
     held_by_value(ctx, db, 'C09.cancel-by-destruction')
     void_counter(ctx, db, 'C09.void-counter')
+    # the pop's future is awaited through the generic awaiter protocol; the bounded variant shares the item queue
+    C02.subscribe_protocol(ctx, db, 'C09.reused-awaiter-registers')
+    C02.sync_waits(ctx, db, 'C09.blocking-pop-waits')
+    from . import C10
+    C10.pop_refill(ctx, db, 'C09.limited-pop-delivers-and-readmits')
 
 
 def _root_origin(f, x, depth=8):
